@@ -16,10 +16,18 @@ Two layers, both over ALL states / inputs / histories of the models:
   bit interval (`overflow_flag_*`).
 
 The statements are restated verbatim from the proof files; definitions used in them
-(`StepWriteClears`, `StepFrag`, `BcastOf`, `IsSolConfirm`, `BcEvid`, `clearOut`, …) are in
+(`StepWriteClears`, `StepFrag`, `BcastOf`, `IsSolConfirm`, `BcEvid`, `Quiet`, `Quiet1`, `ReportedOk`,
+`QuietRun`, `clearOut`, …) are in
 `Dnp3.Proofs.OutstationSkel` / `OutstationC13`.
-Known defects: D16 (an unsolicited confirm clears a broadcast indication that was never reported:
-`confirm_clears_broadcast` is the exact characterisation).
+D16 (an unsolicited confirm cleared a broadcast indication that was never reported) is repaired:
+`OState.unsolReported` records whether the unsolicited response awaiting its confirm carried IIN1.0 with no
+broadcast received since; the unsolicited confirm clears the record only then (`confirm_clears_broadcast`,
+clauses 5 and 6 of `broadcast_bit_rule` = `unsol_confirm_keeps_unreported` / `unsol_confirm_keeps_mandatory`).
+The flag is sound in every state (`unsolReported_sound*`, invariant `ReportedOk`), a broadcast processed
+during the unsolicited wait resets it (`broadcast_in_wait_resets_reported`), and the record it leaves
+survives the unsolicited confirm along every run (`broadcast_never_dropped_by_unsol_confirm`,
+`mandatory_broadcast_never_dropped_by_unsol_confirm`; `unsol_confirm_keeps_broadcast_example` /
+`unsol_confirm_keeps_mandatory_example` evaluate two concrete traces).
 D4 (events of an unconfirmed unsolicited response stayed `Written`, under-reporting the class bits) is
 repaired: outside a response series no record is `Written` (`Dnp3.Props.C03`, section Session).
 -/
@@ -149,7 +157,16 @@ theorem broadcast_forces_con (a : Acc) (dst : Nat) (r : Resp) (a' : Acc) (r' : R
     * a confirm-mandatory record (`some 1`) persists unless the step shows an accepted solicited /
       unsolicited confirm or a new broadcast — or `pf` is a solicited CONFIRM (the silent
       "solicited confirm during the unsolicited wait" case);
-    * nothing at all changes it in a step that transmits no response and shows none of those. -/
+    * nothing at all changes it in a step that transmits no response and shows none of those;
+    * (D16 repaired) an accepted unsolicited confirm changes it only if `unsolReported` was set: from a
+      state with `unsolReported = false`, a step that shows no processed broadcast, no accepted solicited
+      confirm and no transmitted fragment with IIN1.0 set (`Quiet`; `pf` not a solicited CONFIRM) leaves
+      `lastBroadcast` as it is and `unsolReported` clear — an `unsolConfirmed` callback, retransmissions
+      of the unsolicited response and responses not reporting a broadcast are all allowed in that step;
+    * (D16 repaired) likewise a confirm-mandatory record (`some 1`) with `unsolReported = false` persists
+      through a step that shows no processed broadcast, no accepted solicited confirm and no new
+      unsolicited series (`Quiet1`; `pf` not a solicited CONFIRM), even if the step accepts the unsolicited
+      confirm and transmits responses that report the record. -/
 theorem broadcast_bit_rule (env : OEnv) (s : OState) (inp : OInput) :
     ∃ pf, StepFrag env s inp pf ∧
       ((Outstation.step env s inp).1.lastBroadcast = s.lastBroadcast ∨
@@ -161,15 +178,154 @@ theorem broadcast_bit_rule (env : OEnv) (s : OState) (inp : OInput) :
       (¬ IsSolConfirm pf → (∀ o ∈ (Outstation.step env s inp).2, ¬ BcEvid o) →
         s.lastBroadcast = some 1 → (Outstation.step env s inp).1.lastBroadcast = some 1) ∧
       (¬ IsSolConfirm pf → (∀ o ∈ (Outstation.step env s inp).2, ¬ BcEvid o ∧ OOut.kind o ≠ .tx) →
-        (Outstation.step env s inp).1.lastBroadcast = s.lastBroadcast) :=
+        (Outstation.step env s inp).1.lastBroadcast = s.lastBroadcast) ∧
+      (¬ IsSolConfirm pf → (∀ o ∈ (Outstation.step env s inp).2, Quiet o) → s.unsolReported = false →
+        (Outstation.step env s inp).1.unsolReported = false ∧
+        (Outstation.step env s inp).1.lastBroadcast = s.lastBroadcast) ∧
+      (¬ IsSolConfirm pf → (∀ o ∈ (Outstation.step env s inp).2, Quiet1 o) → s.unsolReported = false →
+        s.lastBroadcast = some 1 →
+        (Outstation.step env s inp).1.unsolReported = false ∧
+        (Outstation.step env s inp).1.lastBroadcast = some 1) :=
   @Dnp3.Proofs.C13.broadcast_bit_rule env s inp
 
-/-- (d) the three accepted confirms really clear a confirm-mandatory record -/
+/-- **C13.3, D16 repaired** (`unsol_confirm_keeps_unreported`), per step, for every state and input: the fifth
+    clause of `broadcast_bit_rule` on its own.  From a state with `unsolReported = false` (no broadcast
+    indication was reported by the unsolicited response awaiting its confirm), a step that shows no
+    processed broadcast, no accepted solicited confirm and transmits no fragment with IIN1.0 set, and
+    whose fragment is not a solicited CONFIRM, keeps `lastBroadcast` — even when it accepts the
+    unsolicited confirm (`Cb.unsolConfirmed` among its outputs is allowed by `Quiet`). -/
+theorem unsol_confirm_keeps_unreported (env : OEnv) (s : OState) (inp : OInput)
+    (hsc : ∀ pf, StepFrag env s inp pf → ¬ IsSolConfirm pf)
+    (hq : ∀ o ∈ (Outstation.step env s inp).2, Quiet o) (h0 : s.unsolReported = false) :
+    (Outstation.step env s inp).1.unsolReported = false ∧
+    (Outstation.step env s inp).1.lastBroadcast = s.lastBroadcast :=
+  @Dnp3.Proofs.C13.unsol_confirm_keeps_unreported env s inp hsc hq h0
+
+/-- the sixth clause of `broadcast_bit_rule` on its own: a confirm-mandatory record that the awaited unsolicited
+    response did not report survives the step — the unsolicited confirm does not clear it, and the responses
+    transmitted meanwhile report it (IIN1.0, CON forced: `broadcast_forces_con`) without clearing it -/
+theorem unsol_confirm_keeps_mandatory (env : OEnv) (s : OState) (inp : OInput)
+    (hsc : ∀ pf, StepFrag env s inp pf → ¬ IsSolConfirm pf)
+    (hq : ∀ o ∈ (Outstation.step env s inp).2, Quiet1 o) (h0 : s.unsolReported = false)
+    (h1 : s.lastBroadcast = some 1) :
+    (Outstation.step env s inp).1.unsolReported = false ∧
+    (Outstation.step env s inp).1.lastBroadcast = some 1 :=
+  @Dnp3.Proofs.C13.unsol_confirm_keeps_mandatory env s inp hsc hq h0 h1
+
+/-- (d) what the three accepted confirms do to the record: the solicited confirm (in the solicited wait)
+    clears it; the unsolicited confirm clears it iff the confirmed response had reported it
+    (`unsolReported`) and otherwise KEEPS it (D16 repaired: before, it was cleared unconditionally); a
+    solicited confirm received in the unsolicited wait clears a confirm-mandatory record -/
 theorem confirm_clears_broadcast (a : Acc) (o : List OOut) (c : Cb) (isNull : Bool) :
     (clearWrittenEvents ({ a.1 with lastBroadcast := none }, o)).1.lastBroadcast = none ∧
-    (afterUnsolSeries (emitCb ({ a.1 with lastBroadcast := none }, a.2) c) isNull true).1.1.lastBroadcast = none ∧
+    (afterUnsolSeries (emitCb ({ a.1 with lastBroadcast := if a.1.unsolReported then none else a.1.lastBroadcast }, a.2) c)
+      isNull true).1.1.lastBroadcast = (if a.1.unsolReported then none else a.1.lastBroadcast) ∧
     (if a.1.lastBroadcast = some 1 then (({ a.1 with lastBroadcast := none }, a.2) : Acc) else a).1.lastBroadcast ≠ some 1 :=
   @Dnp3.Proofs.C13.confirm_clears_broadcast a o c isNull
+
+/-- **`unsolReported_sound`** (step level, every state, every input): `ReportedOk` — "if `unsolReported` is
+    set while the session waits for an unsolicited confirm, the unsolicited response awaiting that confirm
+    carried IIN1.0" — is preserved by `Outstation.step`. -/
+theorem unsolReported_sound (env : OEnv) (s : OState) (inp : OInput) (h : ReportedOk s) :
+    ReportedOk (Outstation.step env s inp).1 :=
+  @Dnp3.Proofs.C13.unsolReported_sound env s inp h
+
+/-- … and it holds after construction -/
+theorem unsolReported_sound_start (cfg : OCfg) (evMax : Nat) : ReportedOk (Outstation.start cfg evMax).1 :=
+  @Dnp3.Proofs.C13.unsolReported_sound_start cfg evMax
+
+/-- hence in every state reachable from construction -/
+theorem unsolReported_sound_reachable (cfg : OCfg) (evMax : Nat) (env : OEnv) (s : OState)
+    (h : Outstation.Reachable cfg evMax env s) : ReportedOk s :=
+  @Dnp3.Proofs.C13.unsolReported_sound_reachable cfg evMax env s h
+
+/-- **`broadcast_in_wait_resets_reported`** (step level, every state, every input): a step that starts in the
+    unsolicited confirm wait and processes a broadcast (a `Cb.broadcast` among its outputs) has the broadcast
+    fragment `pf` (confirm mode `m`) as its fragment, stays in the wait, records `lastBroadcast = some m`
+    and ends with `unsolReported = false` — so the confirm of the unsolicited response that is being
+    awaited, written before that broadcast, will not clear the record (`unsol_confirm_keeps_unreported`). -/
+theorem broadcast_in_wait_resets_reported (env : OEnv) (s : OState) (inp : OInput) (resp : Resp) (isNull : Bool)
+    (retries : Option Nat) (dl : Nat) (hm : s.mode = .unsolWait resp isNull retries dl)
+    (hb : ∃ o ∈ (Outstation.step env s inp).2, OOut.kind o = .bcast) :
+    ∃ pf m, StepFrag env s inp pf ∧ BcastOf pf m ∧
+      (Outstation.step env s inp).1.mode = s.mode ∧
+      (Outstation.step env s inp).1.unsolReported = false ∧
+      (Outstation.step env s inp).1.lastBroadcast = some m :=
+  @Dnp3.Proofs.C13.broadcast_in_wait_resets_reported env s inp resp isNull retries dl hm hb
+
+/-- trace form of `unsol_confirm_keeps_unreported`: along a quiet run from a state with
+    `unsolReported = false` the record stays as it is, however many unsolicited confirms are accepted -/
+theorem unreported_record_kept_run (env : OEnv) (is : List OInput) (s : OState) (h0 : s.unsolReported = false)
+    (hq : QuietRun Quiet env s is) :
+    (Outstation.run env s is).1.unsolReported = false ∧
+    (Outstation.run env s is).1.lastBroadcast = s.lastBroadcast :=
+  @Dnp3.Proofs.C13.unreported_record_kept_run env is s h0 hq
+
+/-- trace form of `unsol_confirm_keeps_mandatory`: a confirm-mandatory record with `unsolReported = false`
+    stays along a run without processed broadcast, accepted solicited confirm or new unsolicited series -/
+theorem mandatory_record_kept_run (env : OEnv) (is : List OInput) (s : OState) (h0 : s.unsolReported = false)
+    (hl : s.lastBroadcast = some 1) (hq : QuietRun Quiet1 env s is) :
+    (Outstation.run env s is).1.unsolReported = false ∧
+    (Outstation.run env s is).1.lastBroadcast = some 1 :=
+  @Dnp3.Proofs.C13.mandatory_record_kept_run env is s h0 hl hq
+
+/-- **C13.3, trace level, D16 repaired** (`broadcast_never_dropped_by_unsol_confirm`): a broadcast processed
+    while the session waits for an unsolicited confirm (first input `i0`: the step starts in `.unsolWait …` and
+    shows a `Cb.broadcast`) leaves the record `lastBroadcast = some m` (`m` the confirm mode of that
+    fragment), and the record is still there at the end of every quiet continuation `is` of the run —
+    in particular after the unsolicited confirm of that wait has been accepted (`Cb.unsolConfirmed` is
+    `Quiet`), after retransmissions of the unsolicited response, and after responses that do not carry
+    IIN1.0.  So the next response built reports it (`broadcast_reported`, `iin_of_fresh_response`):
+    `getResponseIin` of the final state returns IIN1 with bit 0 set.
+    (Before the repair of D16 the unsolicited confirm dropped the record unreported.) -/
+theorem broadcast_never_dropped_by_unsol_confirm (env : OEnv) (s : OState) (i0 : OInput) (is : List OInput)
+    (resp : Resp) (isNull : Bool) (retries : Option Nat) (dl : Nat)
+    (hm : s.mode = .unsolWait resp isNull retries dl)
+    (hb : ∃ o ∈ (Outstation.step env s i0).2, OOut.kind o = .bcast)
+    (hq : QuietRun Quiet env (Outstation.step env s i0).1 is) :
+    ∃ pf m, StepFrag env s i0 pf ∧ BcastOf pf m ∧
+      (Outstation.run env s (i0 :: is)).1.lastBroadcast = some m ∧
+      (Outstation.run env s (i0 :: is)).1.unsolReported = false ∧
+      ∀ s' i1 i2, getResponseIin (Outstation.run env s (i0 :: is)).1 = some (s', i1, i2) → i1.testBit 0 = true :=
+  @Dnp3.Proofs.C13.broadcast_never_dropped_by_unsol_confirm env s i0 is resp isNull retries dl hm hb hq
+
+/-- … and for a confirm-mandatory broadcast (destination 0xFFFE, mode 1) processed during the unsolicited
+    wait the continuation may also transmit responses that report the record (they carry IIN1.0 and CON,
+    `broadcast_forces_con`, and do not clear it): the record `some 1` is still there after the unsolicited
+    confirm, as long as no solicited confirm is accepted, no new broadcast processed and no new unsolicited
+    series started (`Quiet1`) -/
+theorem mandatory_broadcast_never_dropped_by_unsol_confirm (env : OEnv) (s : OState) (i0 : OInput)
+    (is : List OInput) (resp : Resp) (isNull : Bool) (retries : Option Nat) (dl : Nat)
+    (hm : s.mode = .unsolWait resp isNull retries dl)
+    (hb : ∃ o ∈ (Outstation.step env s i0).2, OOut.kind o = .bcast)
+    (h1 : (Outstation.step env s i0).1.lastBroadcast = some 1)
+    (hq : QuietRun Quiet1 env (Outstation.step env s i0).1 is) :
+    ∃ pf, StepFrag env s i0 pf ∧ BcastOf pf 1 ∧
+      (Outstation.run env s (i0 :: is)).1.lastBroadcast = some 1 ∧
+      (Outstation.run env s (i0 :: is)).1.unsolReported = false ∧
+      ∀ s' i1 i2, getResponseIin (Outstation.run env s (i0 :: is)).1 = some (s', i1, i2) → i1.testBit 0 = true :=
+  @Dnp3.Proofs.C13.mandatory_broadcast_never_dropped_by_unsol_confirm env s i0 is resp isNull retries dl hm hb h1 hq
+
+/-- the broadcast is processed in the wait, the unsolicited confirm is accepted and KEEPS the record
+    (`some 0`, before the repair of D16: `none`), and the next response carries IIN1 = 0x81 -/
+theorem unsol_confirm_keeps_broadcast_example :
+    (Outstation.run {} d16Start d16Inputs).2.map cbs = [[.broadcast 24 .processed], [.unsolConfirmed 0], []] ∧
+    (Outstation.run {} d16Start d16Inputs).2.map txFrags = [[], [], [(1, [192, 129, 129, 0, 52, 2, 7, 1, 0, 0])]] ∧
+    (Outstation.run {} d16Start [d16Bcast]).1.lastBroadcast = some 0 ∧
+    (Outstation.run {} d16Start [d16Bcast]).1.unsolReported = false ∧
+    (Outstation.run {} d16Start [d16Bcast, d16Confirm]).1.lastBroadcast = some 0 ∧
+    (Outstation.run {} d16Start d16Inputs).1.lastBroadcast = none :=
+  @Dnp3.Proofs.C13.unsol_confirm_keeps_broadcast_example 
+
+theorem unsol_confirm_keeps_mandatory_example :
+    (Outstation.run {} d16Start d16Inputs1).2.map (fun l => (cbs l).filter (fun c => !Cb.isApp c)) =
+      [[.broadcast 24 .processed], [], [.unsolConfirmed 0], [.solWait 1],
+       [.solConfirmed 1, .beginConfirm, .endConfirm 0 0 0]] ∧
+    (Outstation.run {} d16Start d16Inputs1).2.map txFrags =
+      [[], [(1, [224, 129, 129, 0, 52, 2, 7, 1, 0, 0])], [], [(1, [225, 129, 129, 0, 52, 2, 7, 1, 0, 0])], []] ∧
+    (List.range 6).map (fun n => (Outstation.run {} d16Start (d16Inputs1.take n)).1.lastBroadcast) =
+      [none, some 1, some 1, some 1, some 1, none] :=
+  @Dnp3.Proofs.C13.unsol_confirm_keeps_mandatory_example
 
 
 /-! ## Database component (restated from `Dnp3.Props.Db`) -/
